@@ -107,6 +107,21 @@ def _result_field(fn, names, repo=None, mi=None):
             stores = [x for x in ast.walk(fn) if isinstance(x, ast.Name) and x.id == v.id and isinstance(x.ctx, (ast.Store, ast.Del))]
             binds = [x for x in ast.walk(fn) if isinstance(x, ast.Assign) and len(x.targets) == 1 and isinstance(x.targets[0], ast.Name) and x.targets[0].id == v.id]
             v = binds[0].value if len(stores) == 1 and len(binds) == 1 else None
+        if isinstance(v, ast.Call) and any(isinstance(a, ast.Starred) for a in v.args):
+            # `Result(*nets, buffer, steps)` where `nets` is bound once to the construction of a record of known fields: one position per
+            # field of that record (`nets.f`), so that the positions after it are counted correctly
+            args_ = []
+            for a in v.args:
+                sub = None
+                if isinstance(a, ast.Starred) and isinstance(a.value, ast.Name):
+                    st_ = [x for x in ast.walk(fn) if isinstance(x, ast.Name) and x.id == a.value.id and isinstance(x.ctx, (ast.Store, ast.Del))]
+                    bd_ = [x for x in ast.walk(fn) if isinstance(x, ast.Assign) and len(x.targets) == 1 and isinstance(x.targets[0], ast.Name) and x.targets[0].id == a.value.id]
+                    if len(st_) == 1 and len(bd_) == 1 and isinstance(bd_[0].value, ast.Call) and a.value.id not in param_names(fn):
+                        fl_ = _record_type_fields(fn, bd_[0].value.func, repo, mi)
+                        if fl_:
+                            sub = [ast.copy_location(ast.Attribute(value=ast.Name(id=a.value.id, ctx=ast.Load()), attr=f_, ctx=ast.Load()), a) for f_ in fl_]
+                args_ += sub if sub is not None else [a]
+            v = ast.copy_location(ast.Call(func=v.func, args=args_, keywords=v.keywords), v)
         if not isinstance(v, ast.Call) or any(isinstance(a, ast.Starred) for a in v.args) or any(k.arg is None for k in v.keywords):
             continue
         fields = _record_type_fields(fn, v.func, repo, mi)
